@@ -35,6 +35,8 @@ ENCODES = [
     "synrbl.SynUtils.data_utils:find_shortest_sublists",
     "synrbl.SynUtils.chem_utils:calculate_net_charge",
     "synrbl.SynRuleImputer.synthetic_rule_imputer:SyntheticRuleImputer.single_impute",
+    "synrbl.SynRuleImputer.synthetic_rule_constraint:RuleConstraint.fit",
+    "synrbl.SynRuleImputer.synthetic_rule_constraint:RuleConstraint.remove_banned_reactions",
     "synrbl.SynRuleImputer.synthetic_rule_imputer:SyntheticRuleImputer.get_and_validate_smiles",
     "synrbl.SynRuleImputer.synthetic_rule_constraint:RuleConstraint.__init__",
     "synrbl.rule_based:RuleBasedMethod.run",
@@ -347,6 +349,77 @@ def h_match(h: int, o: int, q: int) -> bool:
     return True
 
 
+BAN_X = ["", "ClCl", "BrBr", "FF", "II", "[O].[O]"]
+_BAN = {}
+
+
+def setup_part(part):
+    # read the ban list out of the source before the analysis starts (ast/inspect are not traced code)
+    if "list" not in _BAN:
+        _BAN["list"] = list(_ban_list_from_source())
+
+
+
+def h_ban_filter(x: int, nh: int, no: int, na: int) -> bool:
+    """
+    pre: 0 <= x < 6 and 0 <= nh <= 3 and 0 <= no <= 2 and 0 <= na <= 1
+    post: _
+    """
+    # RuleConstraint.fit on one candidate completion whose product side carries (or not) a dihalogen / O2 placeholder
+    # pair, a solver-chosen number of free [O] placeholders, and whose reactant side carries a solver-chosen number
+    # of free [H] placeholders: a row with a banned product is never accepted, whatever else is on the two sides.
+    from synrbl.SynRuleImputer.synthetic_rule_constraint import RuleConstraint
+
+    x = PART.get("x", x)
+    prod = "B"
+    if BAN_X[x]:
+        prod += "." + BAN_X[x]
+    prod += ".[O]" * no
+    prod += ".N" * na
+    reac = "A" + ".[H]" * nh
+    row = {"id": "0", "reactants": reac, "products": prod, "new_reaction": reac + ">>" + prod}
+    rc = RuleConstraint([row], ban_atoms=list(_BAN["list"]))
+    certain, uncertain = rc.fit()
+    if PART.get("twin"):
+        return len(certain) == 0
+    if len(certain) + len(uncertain) < 1:
+        return False  # the candidate is in one of the two lists
+    banned_halogen = BAN_X[x] not in ("", "[O].[O]")
+    for r in certain:
+        toks = r["products"].split(".")
+        if banned_halogen and BAN_X[x] in toks:
+            return False
+        for d in ("ClCl", "BrBr", "FF", "II"):
+            if d in toks:
+                return False
+    return True
+
+
+def h_two_databases(h: int) -> bool:
+    """
+    pre: 1 <= h <= 2
+    post: _
+    """
+    # the same imbalance solved twice in one process with two different rule databases: each completion may use
+    # only compounds of the database it was given (no state may leak between calls)
+    _cu.Chem = _AnyChem()
+    _imp.Chem = _AnyChem()
+    _m.calculate_net_charge = _cu.calculate_net_charge
+    h = PART.get("h", h)
+    db_a = [{"formula": "H", "smiles": "[H]", "Composition": {"H": 1, "Q": 0}}]
+    db_b = [{"formula": "Hx", "smiles": "[O]", "Composition": {"H": 1, "Q": 0}}]  # a second database that spells its one-hydrogen compound differently
+    outs = []
+    for db in (db_a, db_b, db_a):
+        row = {"Diff_formula": {"H": h, "Q": 0}, "Unbalance": "Products", "reactants": "A", "products": "B", "id": "0"}
+        out = SyntheticRuleImputer.single_impute(row, [dict(r, Composition=dict(r["Composition"])) for r in db], "all", "ion_priority")
+        outs.append(out.get("new_reaction"))
+    if PART.get("twin"):
+        return outs[0] is None
+    want_a = "A>>B" + ".[H]" * h
+    want_b = "A>>B" + ".[O]" * h
+    return outs == [want_a, want_b, want_a]
+
+
 def h_impute(h: int, o: int, q: int, prod: bool) -> bool:
     """
     pre: 0 <= h <= 2 and 0 <= o <= 2 and -1 <= q <= 1
@@ -415,6 +488,12 @@ def plan(tier):
     P.append(Part(H + "h_match", {"max": 2, "twin": 1}, "match.twin", kind="twin", group="search"))
     P.append(Part(H + "h_impute", {}, "single_impute", group="impute", timeout=1800))
     P.append(Part(H + "h_impute", {"twin": 1}, "single_impute.twin", kind="twin", group="impute"))
+    for xi in range(len(BAN_X)):
+        P.append(Part(H + "h_ban_filter", {"x": xi}, "ban_filter[%s]" % (BAN_X[xi] or "none"), group="ban", timeout=900))
+    P.append(Part(H + "h_ban_filter", {"x": 0, "twin": 1}, "ban_filter.twin", kind="twin", group="ban"))
+    for hh in (1, 2):
+        P.append(Part(H + "h_two_databases", {"h": hh}, "single_impute.two-databases[H%d]" % hh, group="impute", timeout=600))
+    P.append(Part(H + "h_two_databases", {"h": 2, "twin": 1}, "single_impute.two-databases.twin", kind="twin", group="impute"))
     return P
 
 
